@@ -182,6 +182,10 @@ func (d *eDoc) build() *be.Document {
 	}
 	for _, cj := range d.Cons {
 		conj := be.NewConjunction()
+		if callerReusesBuffers && len(cj) == 0 {
+			// an expression-less conjunction written as a struct literal or decoded from {"cons":[{}]}: its Expressions map is nil
+			conj = &be.Conjunction{}
+		}
 		for _, e := range cj {
 			conj.AddBoolExprs(&be.BooleanExpr{Field: fieldName(e.F),
 				BoolValues: be.BoolValues{Incl: e.Inc, Value: share(e.V.Value()), Operator: be.ValueOpt(e.Op)}})
